@@ -368,7 +368,8 @@ def part_links(rep: vlib.Reporter, tier: str, rng: random.Random) -> bool:
         if len(met) >= 2:
             dist["sequences_whose_shared_link_met_>=2_concrete_pairs"] += 1
             rep.nontrivial(("L", json.dumps(case, sort_keys=True)))
-        for p in rec["problems"]:
+        dist["problems"] = dist.get("problems", 0) + len(rec["problems"])
+        for p in rec["problems"][:3]:
             found = True
             rep.finding("links:" + p[:100] + json.dumps(case, sort_keys=True)[:120], "shared polymorphic Link: " + p,
                         {"kind": "links", "case": case, "problem": p})
